@@ -18,7 +18,8 @@ def stress_cases(ctx, res, n):
         pool = pool_val if res == "val" else pool_coll
         progs = [dict(rnd.choice(pool)) for _ in range(nw)]
         init = [rnd.choice([0, 1])] if res == "val" else [rnd.choice([-1, 1]), rnd.choice([-1, 2])]
-        kinds = [{"uo": rnd.random() < 0.3, "lossy": rnd.random() < 0.3} for _ in range(rnd.choice([1, 2, 2]))]
+        kinds = [{"uo": rnd.random() < 0.3, "lossy": rnd.random() < 0.3, "masked": rnd.random() < 0.3}
+                 for _ in range(rnd.choice([1, 2, 2]))]
         cases.append({"res": res, "init": init, "progs": progs, "kinds": kinds, "sched": [],
                       "stress": 30 if ctx.tier == "quick" else 300})
     return cases
@@ -36,6 +37,8 @@ def run(ctx):
         cases += conc_common.gen(ctx, "ConcGen_sub_coll.cfg", "coll", timeout=1800)
         cases += conc_common.gen(ctx, "ConcGen_sub2_coll.cfg", "coll", simulate="num=40000", timeout=1800)
         cases += conc_common.gen(ctx, "ConcGen_sub_val3.cfg", "val", simulate="num=40000", timeout=1800)
+        cases += conc_common.gen(ctx, "ConcGen_sub2_val_mask.cfg", "val", simulate="num=20000", timeout=1800)
+        cases += conc_common.gen(ctx, "ConcGen_sub2_coll_mask.cfg", "coll", simulate="num=20000", timeout=1800)
         cases += conc_common.gen(ctx, "ConcGen_gc_coll.cfg", "coll", simulate="num=40000", timeout=1800)
         cases += conc_common.gen(ctx, "ConcGen_lossy_val.cfg", "val", timeout=1800)
         cases += conc_common.gen(ctx, "ConcGen_lossy_coll.cfg", "coll", timeout=1800)
@@ -47,6 +50,8 @@ def run(ctx):
         cases += conc_common.gen(ctx, "ConcGen_sub_coll.cfg", "coll", simulate="num=1500")
         cases += conc_common.gen(ctx, "ConcGen_sub2_coll.cfg", "coll", simulate="num=800")
         cases += conc_common.gen(ctx, "ConcGen_sub_val3.cfg", "val", simulate="num=800")
+        cases += conc_common.gen(ctx, "ConcGen_sub2_val_mask.cfg", "val", simulate="num=500")
+        cases += conc_common.gen(ctx, "ConcGen_sub2_coll_mask.cfg", "coll", simulate="num=500")
     if len(cases) < 500:
         raise vf.Inconclusive("only %d schedules generated" % len(cases))
     # counterexample schedules of the unordered-publication variant (the defect the publication mutex repairs)
